@@ -13,7 +13,7 @@ from vlib.runner import Engine, Violation
 PROPERTY = 'C10'
 RULE = (
     'fault class x session state grid (enumerated completely in every tier) plus Hypothesis-generated valid pre-histories before the fault: '
-    'header faults (marker, length < 19, > max, per-type length, unknown type), OPEN faults (version, AS, router-id, hold time, auth parameter, truncated capability), '
+    'header faults (marker, length < 19, > max, per-type length, unknown type), OPEN faults (version, AS, router-id, hold time, auth parameter, truncated capability; under local hold times 30, 0, 3, 180), OPERATIONAL messages, '
     'UPDATE framing and attribute faults of each RFC 7606 class, messages unexpected for the state (KEEPALIVE/UPDATE/REFRESH before OPEN, OPEN twice, UPDATE in OPENCONFIRM, OPEN when established), '
     'ROUTE-REFRESH with an unknown subtype, API teardown code n, received NOTIFICATION (well-formed and truncated); states OPENSENT, OPENCONFIRM, ESTABLISHED idle and mid-batch. '
     'Oracle: bytes on the transport from the injection to the close. Non-trivial = the session had reached the target state when the fault was injected'
@@ -84,7 +84,10 @@ _EXPECTED = {(repr(list(f)), s): e for f, s, e in GRID}
 
 
 def fixed_cases() -> list:
-    return [{'fault': f, 'state': s, 'pre': [], 'grid': i} for i, (f, s, _) in enumerate(GRID)]
+    out = [{'fault': f, 'state': s, 'pre': [], 'grid': i} for i, (f, s, _) in enumerate(GRID)]
+    # the OPEN faults once more under a local hold time of 0 (legal: no keepalives) - what is refused must not depend on it
+    out += [{'fault': f, 'state': s, 'pre': [], 'grid': i, 'local_hold': 0} for i, (f, s, _) in enumerate(GRID) if f[0] == 'open' and s == 'OPENSENT']
+    return out
 
 
 PRE_OPS = [['ka'], ['update'], ['eor'], ['refresh'], ['wait', 0.05], ['wait', 0.5], ['wait', 2.0], ['ka'], ['update']]
@@ -95,7 +98,10 @@ def cases(draw):
     i = draw(st.integers(0, len(GRID) - 1))
     f, s, _ = GRID[i]
     pre = draw(st.lists(st.sampled_from(PRE_OPS), max_size=6)) if s.startswith('ESTABLISHED') else draw(st.lists(st.sampled_from([['wait', 0.05], ['wait', 0.5], ['wait', 2.0]]), max_size=2))
-    return {'fault': f, 'state': s, 'pre': [list(p) for p in pre], 'grid': i, 'split': draw(st.sampled_from([0, 0, 1, 7, 19]))}
+    case = {'fault': f, 'state': s, 'pre': [list(p) for p in pre], 'grid': i, 'split': draw(st.sampled_from([0, 0, 1, 7, 19]))}
+    if f[0] == 'open' and s == 'OPENSENT':
+        case['local_hold'] = draw(st.sampled_from([30, 0, 3, 180]))
+    return case
 
 
 def check(case: dict) -> dict:
@@ -108,7 +114,7 @@ def check(case: dict) -> dict:
 
     async def main(loop):
         routes = [f'route 40.{i // 250}.{i % 250}.0/24 next-hop 1.2.3.4 med {i % 7}' for i in range(400)] if state == 'ESTABLISHED-BATCH' else ['route 40.0.0.0/24 next-hop 1.2.3.4']
-        text = sc.config(hold=30, routes=routes)
+        text = sc.config(hold=case.get('local_hold', 30), routes=routes)
         with nh.Harness(loop, config_text=text, env={'bgp.openwait': 12}) as hn:
             if not hn.reload_ok:
                 raise RuntimeError(f'configuration refused: {hn.reactor.configuration.error}')
@@ -195,6 +201,8 @@ def check(case: dict) -> dict:
         classes.append('with-pre-history')
     if case.get('split'):
         classes.append('fault-split-over-two-writes')
+    if 'local_hold' in case:
+        classes.append(f'local-hold-time:{case["local_hold"]}')
     return {'nontrivial': True, 'classes': classes}
 
 
